@@ -1626,4 +1626,181 @@ Trace genTz(const std::string& profile, uint64_t seed) {
   return g.run(profile);
 }
 
+
+// --- sweep08: bounded exhaustive supplement for C08 (thorough tier), reported apart from the seeded search.
+// Family 1: for every shipped zone (both databases) one direct client on one processor walks every ORDERED PAIR
+//   (a, b) of cached-year states: a question about state a, then four questions (utc, delta, abbrev, zdc) about
+//   state b, each compared with what a fresh poison-built processor answered to it. States: 1 Jan 00:00, day 90,
+//   2 Jul 12:00 and day 304 of every year 1998..2052, plus far below, far above and the error sentinel.
+// Family 2: the same with TWO zones (the zone and its registry successor) bound alternately to ONE processor,
+//   over every ordered pair of mid-year states.
+// A disagreement is printed as a trace in the simulator's own language (first the two-question form if that
+// already disagrees, else the whole walk of that zone up to the disagreement) and goes through the normal triage.
+namespace {
+
+struct SweepState { int64_t e; bool sentinel; };
+
+static std::vector<SweepState> sweepStates(bool coarse) {
+  std::vector<SweepState> s;
+  for (int y = 1998; y <= 2052; y++) {
+    if (!coarse) s.push_back(SweepState{epochOfYearStart(y), false});
+    if (!coarse) s.push_back(SweepState{epochOfYearStart(y) + (int64_t)90 * 86400, false});
+    s.push_back(SweepState{epochOfYearStart(y) + (int64_t)182 * 86400 + 12 * 3600, false});
+    if (!coarse) s.push_back(SweepState{epochOfYearStart(y) + (int64_t)304 * 86400, false});
+  }
+  s.push_back(SweepState{epochOfYearStart(1950) + 1000000, false});
+  s.push_back(SweepState{epochOfYearStart(2060) + 1000000, false});
+  s.push_back(SweepState{0, true});
+  return s;
+}
+
+static const char* const kSweepKinds[4] = {"utc", "delta", "abbrev", "zdc"};
+
+static Query sweepQuery(const SweepState& st, int k) {
+  Query q; q.kind = kSweepKinds[k];
+  if (st.sentinel) {
+    q.e = LocalDate::kInvalidEpochSeconds; q.y = 0; q.mo = 0; q.d = 0; q.h = 0; q.mi = 0; q.s = 0;
+  } else {
+    q.e = st.e; civilFromEpoch(st.e, q.y, q.mo, q.d, q.h, q.mi, q.s);
+  }
+  return q;
+}
+
+static std::string sweepQueryText(int client, const Query& q) {
+  if (q.byComponents()) return fmt("Q %d %s %d %d %d %d %d %d", client, q.kind.c_str(), q.y, q.mo, q.d, q.h, q.mi, q.s);
+  return fmt("Q %d %s %lld", client, q.kind.c_str(), (long long)q.e);
+}
+
+static Ans sweepFresh(bool ext, const void* zi, const Query& q, uint8_t pz) {
+  Storage st;
+  if (ext) {
+    ExtendedZoneProcessor* p = new (st.fresh(sizeof(ExtendedZoneProcessor), pz)) ExtendedZoneProcessor((const extended::ZoneInfo*)zi);
+    return ask(TimeZone::forZoneInfo((const extended::ZoneInfo*)zi, p), q);
+  }
+  BasicZoneProcessor* p = new (st.fresh(sizeof(BasicZoneProcessor), pz)) BasicZoneProcessor((const basic::ZoneInfo*)zi);
+  return ask(TimeZone::forZoneInfo((const basic::ZoneInfo*)zi, p), q);
+}
+
+static std::string escapeTrace(const std::string& t) {
+  std::string o;
+  for (size_t i = 0; i < t.size(); i++) { if (t[i] == '\n') o += "\\n"; else o += t[i]; }
+  return o;
+}
+
+struct SweepWalk {
+  bool ext;
+  const void* zi[2];
+  int idx[2];
+  Storage st;
+  BasicZoneProcessor* bp = nullptr;
+  ExtendedZoneProcessor* xp = nullptr;
+  std::string history;     // the walk so far, as trace lines
+  bool keepHistory = true;
+  void build(uint8_t poison) {
+    if (ext) xp = new (st.fresh(sizeof(ExtendedZoneProcessor), poison)) ExtendedZoneProcessor();
+    else bp = new (st.fresh(sizeof(BasicZoneProcessor), poison)) BasicZoneProcessor();
+  }
+  TimeZone tz(int c) const {
+    return ext ? TimeZone::forZoneInfo((const extended::ZoneInfo*)zi[c], xp) : TimeZone::forZoneInfo((const basic::ZoneInfo*)zi[c], bp);
+  }
+  std::string header(int clients) const {
+    std::string h = "PROFILE tz-history\nCFG TZ poison=0 decoyfirst=0\n";
+    h += fmt("PROC %s 0\n", ext ? "x" : "b");
+    for (int c = 0; c < clients; c++) h += fmt("TZ %d %s %d proc=0\n", c, ext ? "xdirect" : "bdirect", idx[c]);
+    return h;
+  }
+  Ans step(int c, const Query& q) {
+    if (keepHistory) { history += sweepQueryText(c, q); history += "\n"; }
+    return ask(tz(c), q);
+  }
+};
+
+}  // namespace
+
+int sweepTzPairs(unsigned job, unsigned jobs, unsigned stride) {
+  if (!jobs) jobs = 1;
+  if (!stride) stride = 1;
+  uint64_t pairs = 0, zones = 0, checks = 0;
+  const std::vector<SweepState> S1 = sweepStates(false), S2 = sweepStates(true);
+  unsigned counter = 0;
+  for (int db = 0; db < 2; db++) {
+    const bool ext = db == 1;
+    const int full = ext ? zonedbx::kZoneRegistrySize : zonedb::kZoneRegistrySize;
+    for (int z = 0; z < full; z += (int)stride) {
+      if ((counter++ % jobs) != job) continue;
+      zones++;
+      const void* zi = ext ? (const void*)zonedbx::kZoneRegistry[z] : (const void*)zonedb::kZoneRegistry[z];
+      const int z2 = (z + 1) % full;
+      const void* zi2 = ext ? (const void*)zonedbx::kZoneRegistry[z2] : (const void*)zonedb::kZoneRegistry[z2];
+      // reference tables from fresh processors (two poison fills must agree, else the reference is undefined)
+      std::vector<Ans> T1(S1.size() * 4), T2a(S2.size() * 4), T2b(S2.size() * 4);
+      for (size_t i = 0; i < S1.size(); i++) for (int k = 0; k < 4; k++) {
+        Query q = sweepQuery(S1[i], k);
+        T1[i * 4 + k] = sweepFresh(ext, zi, q, 0x00);
+        Ans other = sweepFresh(ext, zi, q, 0xA5);
+        if (!equalAns(T1[i * 4 + k], other)) {
+          SweepWalk w; w.ext = ext; w.zi[0] = zi; w.idx[0] = z;
+          printf("SWEEP08VIOL %s\n", escapeTrace(w.header(1) + sweepQueryText(0, q) + "\n").c_str());
+          printf("SWEEP08 zones=%llu pairs=%llu checks=%llu\n", (unsigned long long)zones, (unsigned long long)pairs, (unsigned long long)checks);
+          return 0;
+        }
+      }
+      for (size_t i = 0; i < S2.size(); i++) for (int k = 0; k < 4; k++) {
+        Query q = sweepQuery(S2[i], k);
+        T2a[i * 4 + k] = sweepFresh(ext, zi, q, 0x5A);
+        T2b[i * 4 + k] = sweepFresh(ext, zi2, q, 0x5A);
+      }
+      // family 1
+      {
+        SweepWalk w; w.ext = ext; w.zi[0] = zi; w.idx[0] = z; w.build(0xCD);
+        for (size_t a = 0; a < S1.size(); a++) for (size_t b = 0; b < S1.size(); b++) {
+          Query qa = sweepQuery(S1[a], (int)(b % 4));
+          Ans ra = w.step(0, qa);
+          bool bad = !equalAns(ra, T1[a * 4 + b % 4]);
+          Query qbad = qa; 
+          for (int k = 0; k < 4 && !bad; k++) {
+            Query qb = sweepQuery(S1[b], k);
+            Ans rb = w.step(0, qb);
+            checks++;
+            if (!equalAns(rb, T1[b * 4 + k])) { bad = true; qbad = qb; }
+          }
+          pairs++;
+          if (bad) {
+            // the two-question form first
+            SweepWalk s; s.ext = ext; s.zi[0] = zi; s.idx[0] = z; s.build(0xCD);
+            Ans r1 = s.step(0, qa);
+            std::string shortTrace;
+            if (!equalAns(r1, T1[a * 4 + b % 4])) shortTrace = s.header(1) + s.history;
+            else {
+              Ans r2 = s.step(0, qbad);
+              if (!equalAns(r2, sweepFresh(ext, zi, qbad, 0x00))) shortTrace = s.header(1) + s.history;
+            }
+            printf("SWEEP08VIOL %s\n", escapeTrace(shortTrace.empty() ? w.header(1) + w.history : shortTrace).c_str());
+            printf("SWEEP08 zones=%llu pairs=%llu checks=%llu\n", (unsigned long long)zones, (unsigned long long)pairs, (unsigned long long)checks);
+            return 0;
+          }
+        }
+      }
+      // family 2
+      {
+        SweepWalk w; w.ext = ext; w.zi[0] = zi; w.zi[1] = zi2; w.idx[0] = z; w.idx[1] = z2; w.build(0x3E);
+        for (size_t a = 0; a < S2.size(); a++) for (size_t b = 0; b < S2.size(); b++) {
+          int ka = (int)((a + b) % 4), kb = (int)((a + 3 * b + 1) % 4);
+          Query qa = sweepQuery(S2[a], ka), qb = sweepQuery(S2[b], kb);
+          Ans ra = w.step(0, qa);
+          Ans rb = w.step(1, qb);
+          checks += 2; pairs++;
+          if (!equalAns(ra, T2a[a * 4 + ka]) || !equalAns(rb, T2b[b * 4 + kb])) {
+            printf("SWEEP08VIOL %s\n", escapeTrace(w.header(2) + w.history).c_str());
+            printf("SWEEP08 zones=%llu pairs=%llu checks=%llu\n", (unsigned long long)zones, (unsigned long long)pairs, (unsigned long long)checks);
+            return 0;
+          }
+        }
+      }
+    }
+  }
+  printf("SWEEP08 zones=%llu pairs=%llu checks=%llu\n", (unsigned long long)zones, (unsigned long long)pairs, (unsigned long long)checks);
+  return 0;
+}
+
 }  // namespace sim
